@@ -438,6 +438,16 @@ class Mailbox:
                     # there are no other commands running
                     #
                     return True
+
+                # A STORE that is already running may be about to flag
+                # messages `\Deleted`: there will be messages to expunge by
+                # the time we look again.
+                #
+                if any(
+                    x.command == IMAPCommand.STORE
+                    for x in self.executing_tasks
+                ):
+                    return True
                 return False
 
             case IMAPCommand.COPY:
